@@ -275,8 +275,11 @@ mutual
           cases e with
           | start tag attrs =>
             obtain ⟨ms, hms, hj, hh⟩ := ihs (k + 2) st cs xs
-            refine ⟨ms, by simp [exList, hms], fun hst ctx tt ta htt hta => ?_, by simpa [msgIdsList, msgIdsEv] using hh⟩
-            simpa [lkList, skipStep] using hj hst ctx tt ta htt hta
+            refine ⟨extractAttrs cfg false attrs ++ ms, by simp [exList, hms, bind, Except.bind, pure, Except.pure],
+              fun hst ctx tt ta htt hta => ?_, by simpa [msgIdsList, msgIdsEv] using Has.right hh⟩
+            have := hj hst ctx tt ta htt hta
+            simp only [lkList, skipStep]
+            exact Incl.right (by simpa using this)
           | end_ tag =>
             obtain ⟨ms, hms, hj, hh⟩ := ihs k st cs xs
             refine ⟨ms, by simp [exList, hms], fun hst ctx tt ta htt hta => ?_, by simpa [msgIdsList, msgIdsEv] using hh⟩
@@ -317,8 +320,11 @@ mutual
           | start tag attrs =>
             by_cases hx : excluded cfg tag attrs = true
             · obtain ⟨ms, hms, hj, hh⟩ := ihs 1 st cs xs
-              refine ⟨ms, by simp [exList, hx, hms], fun hst ctx tt ta htt hta => ?_, by simpa [msgIdsList, msgIdsEv] using hh⟩
-              simpa [lkList, hx] using hj hst ctx tt ta htt hta
+              refine ⟨extractAttrs cfg false attrs ++ ms, by simp [exList, hx, hms, bind, Except.bind, pure, Except.pure],
+                fun hst ctx tt ta htt hta => ?_, by simpa [msgIdsList, msgIdsEv] using Has.right hh⟩
+              have := hj hst ctx tt ta htt hta
+              simp only [lkList, hx, ↓reduceIte]
+              exact Incl.right (by simpa using this)
             · obtain ⟨ms, hms, hj, hh⟩ := ihs 0 st cs xs
               refine ⟨extractAttrs cfg st attrs ++ ms, by simp [exList, hx, hms, bind, Except.bind, pure, Except.pure],
                 fun hst ctx tt ta htt hta => ?_, by simpa [msgIdsList, msgIdsEv] using Has.right hh⟩
